@@ -126,6 +126,22 @@ def build_region(sc, rnd, depth, funcs):
                 sc.take(w)
             sc.nodes.append(cond.parent_node)
             sc.local += [(cond[i], t) for i, (_, t) in enumerate(ins)]
+        elif act < 0.75 and depth > 0 and [x for x in sc.copyable(with_outer=False) if isinstance(x[1], T.Either)]:
+            # conditional on a sum whose variants have *different* rows: case i receives variant i, then the other inputs
+            cw, st = rnd.choice([x for x in sc.copyable(with_outer=False) if isinstance(x[1], T.Either)])
+            ins = sc.linear()
+            with b.add_conditional(cw, *[w for w, _ in ins]) as cond:
+                for i in (0, 1):
+                    with cond.add_case(i) as case:
+                        nvar = len(st.variant_rows[i])
+                        cins = case.inputs()
+                        if nvar and rnd.random() < 0.7:
+                            case.add_op(O.Noop(), cins[rnd.randrange(nvar)])          # uses a field of its own variant
+                        case.set_outputs(*cins[nvar:])
+            for w, _t in ins:
+                sc.take(w)
+            sc.nodes.append(cond.parent_node)
+            sc.local += [(cond[i], t) for i, (_, t) in enumerate(ins)]
         elif act < 0.78 and depth > 0 and bools:
             # if / else
             cw, _ = rnd.choice(bools)
